@@ -24,6 +24,10 @@
 //!   rule_strings {"rule": Rule JSON}   rule `time` / `datetime` / `weekdays` / ip strings malformed in multi-byte ways (a multi-byte
 //!             char at every byte offset 0..=12, full-width digits, trailing zone designators, > 8 bytes) at RULE LOADING
 //!             (Router::insert / into_route), then one match and one trace
+//!   deep_tree {"level": "tree"|"router", "n": N, "stack_kib": K, "ops": [..]}   N rules with CHAINED literal prefixes (`/a@m`, `/aa@m`, …:
+//!             the radix tree gets depth N; insert / find / trace / cache / Clone / Drop / remove / retain are recursive) in a CHILD
+//!             process on a thread with an explicit stack of K KiB; obs {"n","stack_kib","level","outcome": "ok"|"abort"|"timeout",
+//!             "failed_op"}; an abort by stack overflow is the known finding `deep-tree-stack-overflow` (the driver abstains)
 //!   transform {"kind", "options", "s"}                                                  every marker transformer through api::Transformer
 //!   slice     {"s": hex, "from": n, "to": n|null}         Slice::transform — compared with the Lean model (obs {"out": hex})
 //!   ffi_null  {"fn": name, "nulls": [bool]}               one extern "C" function under one null pattern of its nullable
@@ -58,6 +62,7 @@ use std::ptr::{null, null_mut};
 use std::sync::Arc;
 
 include!("w8_ffi.inc");
+include!("w8_common.inc");
 
 // ------------------------------------------------------------------------------------------------
 // adversarial material
@@ -529,8 +534,88 @@ const FFI_STR_FUNCS: &[&str] = &[
     "header_map",
 ];
 
+/// Diff-directed block (VERIF_HINTS, BUILDER_GUIDE last section): every hinted string (also upper / lower-cased) at every place
+/// the grammar has free text, every hinted size (n-1, n, n+1) at every place it has a length or a count.
+fn gen_hinted(h: &Hints, rng: &mut Prng, emit: &mut dyn FnMut(Value)) {
+    for t in w8_hint_strs(h) {
+        let t = t.as_str();
+        for kind in TRANSFORMERS {
+            emit(json!({"family": "transform", "kind": kind, "options": {"from": t, "to": t, "something": t, "with": t}, "s": format!("{t}é{t}")}));
+            emit(json!({"family": "transform", "kind": kind, "options": {"from": "1", "to": "3", "something": "é", "with": t}, "s": t}));
+        }
+        emit(json!({"family": "slice", "s": hex(format!("{t}é{t}").as_bytes()), "from": t.len(), "to": t.len() + 1}));
+        let mut rule = gen_rule(rng, "h0");
+        rule["source"] = json!({"scheme": null, "host": null, "path": format!("/{t}"), "query": t, "ips": [{"in_range": t}], "headers": [{"type": "match_regex", "name": t, "value": t}, {"type": "contains", "name": "X", "value": t}],
+            "methods": [t], "exclude_methods": null, "response_status_codes": null, "exclude_response_status_codes": null, "sampling": null, "time": [[t, t]], "datetime": [[t, null]], "weekdays": [t]});
+        rule["target"] = json!(t);
+        rule["markers"] = json!([{"name": "m", "regex": t, "transformers": [{"type": t, "options": {"from": t, "to": t}}, {"type": "replace", "options": {"something": t, "with": t}}]}]);
+        rule["header_filters"] = json!([{"action": "add", "header": t, "value": t, "id": t, "target_hash": t}, {"action": t, "header": "X", "value": "v", "id": null, "target_hash": null}]);
+        rule["body_filters"] = json!([{"action": "append_text", "content": t, "id": null, "target_hash": null}, {"action": "append_child", "value": t, "inner_value": t, "element_tree": ["html", t], "css_selector": t, "id": null, "target_hash": null}]);
+        let mut rule2 = gen_rule(rng, "h1");
+        rule2["source"]["path"] = json!(format!("/x/@m{t}"));
+        rule2["source"]["host"] = json!(t);
+        let req = json!({"url": format!("/{t}?{t}"), "host": t, "scheme": t, "method": t, "headers": [[t, t], ["X", t]], "ip": null, "created_at": t, "sampling_override": null});
+        emit(json!({"family": "rule", "config": {"marketing_query_params": [t]}, "rules": [rule.clone(), rule2], "requests": [req.clone(), {"url": "/x/abc", "host": t, "headers": []}], "cache": true,
+            "response": {"status": 200, "headers": [["Content-Type", t], ["Content-Encoding", t], [t, t]], "chunks": [hex(t.as_bytes()), hex(format!("<html><{t}>{t}</{t}></html>").as_bytes())]}}));
+        emit(json!({"family": "analysis", "kind": "explain", "project": false, "base": [], "base_config": {}, "input": {"router_config": {}, "rules": [rule], "max_hops": 3, "project_domains": [t],
+            "example": {"url": format!("/{t}"), "method": t, "headers": [{"name": t, "value": t}], "datetime": t, "ip_address": t, "response_status_code": null, "must_match": true, "unit_ids_applied": [t]}}}));
+        for ctx in ["", "script", "title", t] {
+            for body in [t.to_string(), format!("<{t}>"), format!("<p {t}={t} {t}>"), format!("<script>{t}</script>"), format!("<!--{t}-->"), format!("<![CDATA[{t}]]>"), format!("a{t}<p>{t}</p>{t}")] {
+                emit(json!({"family": "html", "bytes": hex(body.as_bytes()), "context": ctx}));
+            }
+        }
+        for enc in ["gzip", "deflate", "br", t] {
+            emit(json!({"family": "body", "filters": [{"action": "append_text", "content": t, "id": null, "target_hash": null}, {"action": "replace", "value": t, "inner_value": null, "element_tree": ["html", "body"], "css_selector": t, "id": null, "target_hash": null}],
+                "headers": [["Content-Encoding", enc], ["Content-Type", "text/html"]], "chunks": [hex(t.as_bytes()), hex(format!("<html><body>{t}").as_bytes()), hex(format!("{t}</body></html>").as_bytes())]}));
+        }
+        emit(json!({"family": "request", "str": t, "json": {"path_and_query": {"path_and_query": t, "path_and_query_matching": t, "skipped_query_params": t, "original": t}, "path_and_query_v2": t, "host": t, "scheme": t, "method": t,
+            "headers": [{"name": t, "value": t}], "remote_addr": null, "created_at": null, "sampling_override": null}, "config": {"marketing_query_params": [t]}}));
+        for name in ["Forwarded", "X-Forwarded-For", "User-Agent", t] {
+            emit(json!({"family": "log", "request": req, "headers": [[name, t], [name, format!("for={t}, for=\"{t}\";by={t}")]], "client_ip": t, "proxy": t, "time": 1, "legacy": {"status_code": 200, "host": t, "method": t, "request_uri": t, "user_agent": t, "referer": t, "scheme": t, "use_json": true, "target": t, "rule_id": t}}));
+        }
+        for f in FFI_STR_FUNCS {
+            emit(json!({"family": "ffi_str", "fn": f, "payload": hex(t.as_bytes())}));
+        }
+        emit(json!({"family": "api_misc", "uri": t, "host": t, "scheme": t, "method": t, "headers": [[t, t], ["Host", t], ["Forwarded", t]], "ip": t, "action_json": t, "dates": [t, t], "times": [t, t], "weekdays": [t], "cidrs": [t, t], "strs": [t, t, t, t], "code": 200}));
+        let mut mt = gen_marker_transform(rng);
+        mt["host"] = json!(format!("{t}.example.org"));
+        mt["xh"] = json!(format!("v-{t}"));
+        mt["xv"] = json!(t);
+        emit(mt);
+        for kind in ["time", "datetime", "weekday", "ip"] {
+            emit(json!({"family": "rule_strings", "rule": rule_with_string(kind, t)}));
+        }
+    }
+    for n in h.sizes(70_000) {
+        for body in ["a".repeat(n), "<".repeat(n), format!("<p{}>", " a=b".repeat(n.min(5000))), format!("<!--{}", "-".repeat(n)), format!("<script>{}", "x".repeat(n)), format!("{}<p>", "é".repeat(n / 2)), "<p>".repeat(n.min(8000))] {
+            emit(json!({"family": "html", "bytes": hex(body.as_bytes()), "context": ""}));
+            emit(json!({"family": "body", "filters": [{"action": "append_child", "value": "<i>x</i>", "inner_value": null, "element_tree": ["html", "body"], "css_selector": null, "id": null, "target_hash": null}],
+                "headers": [], "chunks": [hex(b"<html><body>"), hex(body.as_bytes()), hex(b"</body></html>")]}));
+        }
+        let one = "<html><body><p>é</p></body></html>".as_bytes();
+        emit(json!({"family": "body", "filters": [{"action": "replace_text", "content": "x".repeat(n), "id": null, "target_hash": null}], "headers": [], "chunks": (0..n.min(3000)).map(|i| hex(&one[i % one.len()..i % one.len() + 1])).collect::<Vec<_>>()}));
+        let sn = "é".repeat(n / 2 + 1);
+        for (f, t) in [(n, n + 1), (n - 1, n), (0, n), (n, 0), (n + 1, n + 2)] {
+            emit(json!({"family": "slice", "s": hex(sn.as_bytes()), "from": f, "to": t}));
+        }
+        for kind in TRANSFORMERS {
+            emit(json!({"family": "transform", "kind": kind, "options": {"from": n.to_string(), "to": (n + 1).to_string(), "something": "a", "with": "x".repeat(n.min(5000))}, "s": "aé".repeat(n.min(20000) / 3 + 1)}));
+        }
+        emit(json!({"family": "request", "str": format!("/{}?{}", "a".repeat(n), "b=c&".repeat(n.min(3000))), "json": null, "config": {}}));
+        let many = n.min(64);
+        emit(json!({"family": "rule", "config": {}, "rules": (0..many).map(|k| { let mut r = gen_rule(rng, &format!("s{k}")); r["source"]["path"] = json!(format!("/s/{}", k % 3)); r["markers"] = json!([{"name": "m", "regex": format!("a{{{}}}", n.min(900)), "transformers": []}]); r }).collect::<Vec<_>>(),
+            "requests": [{"url": "/s/1", "headers": (0..n.min(400)).map(|k| json!([format!("H{k}"), "v"])).collect::<Vec<_>>()}], "cache": true, "response": {"status": 200, "headers": [], "chunks": []}}));
+        emit(json!({"family": "log", "request": {"url": "/", "headers": []}, "headers": [["Forwarded", (0..n.min(3000)).map(|k| format!("for=10.0.0.{}", k % 250)).collect::<Vec<_>>().join(", ")]], "client_ip": "10.0.0.1", "proxy": "p", "time": n, "legacy": null}));
+        emit(json!({"family": "analysis", "kind": "test_examples", "project": false, "base": [], "base_config": {}, "input": {"router_config": {}, "max_hops": n.min(255), "rules": (0..many).map(|k| gen_rule(rng, &format!("a{k}"))).collect::<Vec<_>>()}}));
+    }
+}
+
 fn gen(args: &Args, emit: &mut dyn FnMut(Value)) {
     let mut rng = Prng::new(args.seed);
+    let h = hints();
+    if !h.is_empty() {
+        gen_hinted(&h, &mut rng, emit);
+    }
     // exhaustive: every extern "C" function under every null pattern of its nullable parameters
     for (name, n) in FFI_FUNCS {
         for mask in 0..(1u32 << n) {
@@ -566,6 +651,19 @@ fn gen(args: &Args, emit: &mut dyn FnMut(Value)) {
     ] {
         for via in ["request", "example"] {
             emit(json!({"family": "request_time", "created_at": d, "ymdhms": c, "via": via}));
+        }
+    }
+    // depth of the regex radix tree = number of chained literal prefixes: below the measured 2 MiB threshold (must pass), above
+    // it (known finding deep-tree-stack-overflow), and on 8 MiB
+    if !args.extra.iter().any(|a| a == "--no-deep-tree") {
+        let all = ["insert_deep", "find", "trace", "cache", "clone", "drop_clone", "retain", "remove", "drop"];
+        for (level, n, stack) in [("tree", 1000usize, 2048usize), ("router", 1000, 2048), ("tree", 2500, 8192)] {
+            emit(json!({"family": "deep_tree", "level": level, "n": n, "stack_kib": stack, "ops": all}));
+        }
+        if args.tier == "thorough" || args.extra.iter().any(|a| a == "--deep-tree-findings") {
+            for (level, n, stack) in [("router", 6000usize, 2048usize), ("tree", 8000, 2048), ("router", 26000, 8192)] {
+                emit(json!({"family": "deep_tree", "level": level, "n": n, "stack_kib": stack, "ops": all}));
+            }
         }
     }
     // api/log.rs parses `Forwarded` / `X-Forwarded-For` by hand: every adversarial element alone, keyed, quoted and in a list
@@ -1182,6 +1280,135 @@ fn run_rule_strings(case: &Value) -> Obs {
     Obs::new(ok()).tag(format!("rule_strings:matched{}", n.min(1)))
 }
 
+/// `c07 child-deep <tree|router> <n> <stack_kib> <op,op,..>`: builds the chain (longest pattern first: each insertion then
+/// happens at the root, so building does not recurse) and runs the operations on a thread with the given stack, printing one
+/// line per completed step; a stack overflow kills the process with SIGABRT / SIGSEGV.
+fn child_deep(level: &str, n: usize, stack_kib: usize, ops: &str) {
+    use std::io::Write;
+    let level = level.to_string();
+    let ops: Vec<String> = ops.split(',').map(|s| s.to_string()).collect();
+    let say = |m: &str| {
+        let mut o = std::io::stdout();
+        let _ = writeln!(o, "{m}");
+        let _ = o.flush();
+    };
+    let body = move || {
+        let hay = format!("/{}7", "a".repeat(n));
+        if level == "tree" {
+            let mut tree: redirectionio::regex_radix_tree::RegexTreeMap<u32> = redirectionio::regex_radix_tree::RegexTreeMap::new(false);
+            for i in (1..=n).rev() {
+                tree.insert(&format!("/{}(?:[0-9]+)", "a".repeat(i)), &format!("r{i}"), i as u32);
+            }
+            say("build");
+            let mut copy = None;
+            for op in &ops {
+                match op.as_str() {
+                    "insert_deep" => tree.insert(&format!("/{}(?:[0-9]+)", "a".repeat(n + 1)), "deep", 0),
+                    "find" => {
+                        let _ = tree.find(&hay).len();
+                    }
+                    "trace" => {
+                        let _ = tree.trace(&hay);
+                    }
+                    "cache" => {
+                        let _ = tree.cache(10, None);
+                    }
+                    "clone" => copy = Some(tree.clone()),
+                    "drop_clone" => drop(copy.take()),
+                    "retain" => tree.retain(&|id: &str, _: &mut u32| id != "r1"),
+                    "remove" => {
+                        let _ = tree.remove(&format!("r{n}"));
+                    }
+                    "drop" => {
+                        let t = std::mem::replace(&mut tree, redirectionio::regex_radix_tree::RegexTreeMap::new(false));
+                        drop(t);
+                    }
+                    _ => {}
+                }
+                say(op);
+            }
+        } else {
+            let config = RouterConfig::default();
+            let mut router = Router::<Rule>::from_config(config.clone());
+            let mk = |i: usize| -> Rule {
+                serde_json::from_value(json!({"id": format!("r{i}"), "rank": 1, "source": {"path": format!("/{}@m", "a".repeat(i))}, "markers": [{"name": "m", "regex": "[0-9]+"}], "status_code": 301, "target": "/t"})).unwrap()
+            };
+            for i in (1..=n).rev() {
+                router.insert(mk(i));
+            }
+            say("build");
+            let request = Request::from_config(&config, hay.clone(), None, None, None, None, None);
+            let mut copy = None;
+            for op in &ops {
+                match op.as_str() {
+                    "insert_deep" => router.insert(mk(n + 1)),
+                    "find" => {
+                        let _ = router.match_request(&request).len();
+                    }
+                    "trace" => {
+                        let _ = router.trace_request(&request).len();
+                    }
+                    "cache" => router.cache(Some(10)),
+                    "clone" => copy = Some(router.clone()),
+                    "drop_clone" => drop(copy.take()),
+                    "retain" => router.batch_remove(&["r1".to_string()].into_iter().collect()),
+                    "remove" => {
+                        let _ = router.remove(&format!("r{n}"));
+                    }
+                    "drop" => {
+                        let r = std::mem::replace(&mut router, Router::<Rule>::from_config(config.clone()));
+                        drop(r);
+                    }
+                    _ => {}
+                }
+                say(op);
+            }
+        }
+        say("done");
+    };
+    match std::thread::Builder::new().stack_size(stack_kib * 1024).spawn(body) {
+        Ok(h) => {
+            let ok = h.join().is_ok();
+            std::process::exit(if ok { 0 } else { 4 });
+        }
+        Err(_) => std::process::exit(5),
+    }
+}
+
+fn run_deep_tree(case: &Value) -> Obs {
+    use std::os::unix::process::ExitStatusExt;
+    let level = s(case, "level").unwrap_or_default();
+    let n = case.get("n").and_then(|x| x.as_u64()).unwrap_or(0) as usize;
+    let stack = case.get("stack_kib").and_then(|x| x.as_u64()).unwrap_or(0) as usize;
+    let ops: Vec<String> = arr(case, "ops").iter().filter_map(|x| x.as_str().map(|s| s.to_string())).collect();
+    if !(level == "tree" || level == "router") || n == 0 || n > 40_000 || !(64..=65536).contains(&stack) || ops.len() > 12 {
+        return Obs::invalid("deep_tree parameters");
+    }
+    w8_watchdog::arm(120);
+    let exe = match std::env::current_exe() {
+        Ok(e) => e,
+        Err(_) => return Obs::invalid("no current_exe"),
+    };
+    let out = std::process::Command::new(exe).arg("child-deep").arg(&level).arg(n.to_string()).arg(stack.to_string()).arg(ops.join(",")).stdin(std::process::Stdio::null()).stderr(std::process::Stdio::piped()).output();
+    let out = match out {
+        Ok(o) => o,
+        Err(_) => return Obs::invalid("cannot spawn child"),
+    };
+    let done: Vec<String> = String::from_utf8_lossy(&out.stdout).lines().map(|l| l.to_string()).collect();
+    let finished = done.last().map(|l| l == "done").unwrap_or(false);
+    // the step that did not complete: the first of build, ops.. that was not reported
+    let steps: Vec<String> = std::iter::once("build".to_string()).chain(ops.iter().cloned()).collect();
+    let failed_op = if finished { Value::Null } else { json!(steps.get(done.len()).cloned().unwrap_or_default()) };
+    let overflow = String::from_utf8_lossy(&out.stderr).contains("overflowed its stack") || matches!(out.status.signal(), Some(6) | Some(11));
+    let outcome = if out.status.code() == Some(0) && finished { "ok" } else if overflow { "abort" } else { "error" };
+    let o = Obs::new(json!({"n": n, "stack_kib": stack, "level": level, "outcome": outcome, "failed_op": failed_op})).tag(format!("deep_tree:{level}:{outcome}"));
+    match outcome {
+        "ok" => o,
+        "abort" => o.fail(format!("{n} rules with chained literal prefixes ({level} level) overflow a {stack} KiB stack in `{}` (the process aborts)", failed_op.as_str().unwrap_or("?")), "deep-tree-stack-overflow"),
+        _ => o.fail(format!("deep_tree child failed: status {:?}", out.status), "deep-tree-child-error"),
+    }
+}
+
 fn run_transform(case: &Value) -> Obs {
     let t: Transformer = match serde_json::from_value(json!({"type": case.get("kind"), "options": case.get("options")})) {
         Ok(t) => t,
@@ -1594,6 +1821,7 @@ fn run_request_time(case: &Value) -> Obs {
 }
 
 fn run(case: &Value) -> Obs {
+    w8_watchdog::arm(30);
     let fam = s(case, "family").unwrap_or_default();
     let o = match fam.as_str() {
         "rule" => run_rule(case),
@@ -1606,6 +1834,7 @@ fn run(case: &Value) -> Obs {
         "api_misc" => run_api_misc(case),
         "marker_transform" => run_marker_transform(case),
         "rule_strings" => run_rule_strings(case),
+        "deep_tree" => run_deep_tree(case),
         "slice" => run_slice(case),
         "ffi_null" => run_ffi_null(case),
         "ffi_str" => run_ffi_str(case),
@@ -1618,6 +1847,10 @@ fn run(case: &Value) -> Obs {
 
 fn main() {
     let argv: Vec<String> = std::env::args().collect();
+    if argv.get(1).map(|s| s.as_str()) == Some("child-deep") && argv.len() >= 6 {
+        child_deep(&argv[2], argv[3].parse().unwrap_or(0), argv[4].parse().unwrap_or(2048), &argv[5]);
+        return;
+    }
     if argv.get(1).map(|s| s.as_str()) == Some("child-logger") {
         child_logger(&argv[2..]);
         return;
